@@ -342,6 +342,37 @@ Theorem wrapper_resolves_exactly_once : forall k rej ctxdone d,
 Proof. exact wrap_once. Qed.
 Print Assumptions wrapper_resolves_exactly_once.
 
+(* the context over the LIFE of a call through a wrapper [wrapx k rej x d]: x says what the
+   context is on entry and what it has become when the downstream returns (cancelled by the
+   client / past the call's own deadline while the handler, statement or command ran).
+   Live on entry and admitted: one downstream run, one record, a failure iff the downstream
+   panicked or its result is unacceptable by the site's table - the same record as under a
+   context that stays live.  (Seeded change C01-3 made a done context on return a success.) *)
+Theorem wrapper_judges_outcome_not_context : forall k x d,
+  through_breaker k = true -> x_done_at_entry x = false ->
+  let r := wrapx k false x d in
+  wr_invoked r = 1 /\ wr_drop r = 0 /\ wr_succ r + wr_fail r = 1 /\
+  (wr_fail r = 1 <-> (d = DPanic \/ w_acceptable k d = false)) /\
+  r = wrapx k false XLive d.
+Proof. exact wrapx_live_on_entry. Qed.
+Print Assumptions wrapper_judges_outcome_not_context.
+
+(* done on entry (cancelled or past its deadline), a site that uses the *Ctx entry point:
+   nothing runs, nothing is recorded, the caller gets the context's error *)
+Theorem wrapper_done_context_short_circuits : forall k rej x d,
+  through_breaker k = true -> w_uses_ctx k = true -> x_done_at_entry x = true ->
+  let r := wrapx k rej x d in
+  wr_invoked r = 0 /\ wr_succ r + wr_fail r + wr_drop r = 0 /\ wr_seen r = SCtxErr.
+Proof. exact wrapx_done_on_entry. Qed.
+Print Assumptions wrapper_done_context_short_circuits.
+
+Example ex_wrapper_context :
+  wr_fail (wrapx WGrpcServerUnary false XExpiredAtReturn DCtxDeadline) = 1 /\
+  wr_fail (wrapx WGrpcClient false XCancelledAtReturn (DStatus 13)) = 1 /\
+  wr_succ (wrapx WRedisCmd false XCancelledAtReturn DCtxCanceled) = 1 /\
+  wr_invoked (wrapx (WSqlM MQueryRows true) false XExpired DOther) = 0.
+Proof. vm_compute. auto. Qed.
+
 (* the ignored redis commands (blpop) never touch the breaker *)
 Theorem wrapper_ignored_command_bypasses : forall rej ctxdone d,
   let r := wrap WRedisIgnoredCmd rej ctxdone d in
